@@ -189,6 +189,12 @@ def run(ctx, selftest=False, families=FAMILIES, quick_replay=700, quick_random=2
         if t["events"][0]["N"] > 1:
             ctx.nontrivial(_profile_key(t))
     traces += rtraces
+    if not quick:
+        # thorough: the sampler calls made by the repository's own tests, recorded and validated like every other trace
+        from .. import repotests
+        rt, rinfo = repotests.collect(ctx.workdir)
+        ctx.notes["repository_test_traces"] = rinfo
+        traces = traces + rt
     ctx.sample(_brief(traces[0])); ctx.sample(_brief(rtraces[0]))
     verdicts = ctx.validate("SamplerTrace", traces, timeout=3000)
     ctx.judge(traces, verdicts, families=families)
